@@ -95,7 +95,7 @@ Definition range_of (e : param) : option (Z * Z) :=
    covers the frequency range of the vnacal_new_t (no requirement before set_frequency_vector) *)
 Definition in_range (t : ptable) (v : vnew) (n : nat) : Prop :=
   vn_ranged v = false \/
-  exists e, ends_at t n e /\ range_ok (range_of e) (vn_f0 v) (vn_fmax v) = true.
+  exists e, ends_at t n e /\ range_ok (clamp_range (sigma_at t n) (range_of e)) (vn_f0 v) (vn_fmax v) = true.
 
 (* a handle is acceptable in a standard given to vnacal_new_t v: either v already holds it (then it
    works even if the user has deleted it), or the user can still see it (non-negative, occupied, not
@@ -105,7 +105,7 @@ Inductive acceptable (t : ptable) (v : vnew) : Z -> Prop :=
 | acc_held : forall h, (0 <= h)%Z -> In (Z.to_nat h) (vn_params v) -> acceptable t v h
 | acc_visible : forall h p, (0 <= h)%Z -> slot t (Z.to_nat h) = Some p -> p_deleted p = false ->
     in_range t v (Z.to_nat h) ->
-    (forall o sv, p_kind p = KCorrelated o sv -> acceptable t v (Z.of_nat o)) ->
+    (forall o sf sv, p_kind p = KCorrelated o sf sv -> acceptable t v (Z.of_nat o)) ->
     acceptable t v h.
 
 (* ------------------------------------------------------------------ operations that may write the calibration table *)
